@@ -130,6 +130,8 @@ pub enum BOp {
     ATell { id: u32, gate: Option<usize> },
     AAsk { id: u32, gate: Option<usize> },
     OpenGate(usize),
+    /// the calling thread leaves itself an unpark token (what a park-based library or a self-waking future does)
+    Unpark,
     /// n async tells (ids first..first+n) fired at once from tasks on the actor's runtime; their results are not
     /// tracked one by one (background traffic)
     Burst { first: u32, n: u32 },
@@ -250,6 +252,10 @@ fn do_blocking_erased(r: &ActorRef<BA>, op: &BOp) -> BRes {
                 Err(e) => BRes::Err(err_name(&e)),
             }
         }
+        BOp::Unpark => {
+            std::thread::current().unpark();
+            BRes::Ok
+        }
         _ => BRes::Err("not an erased blocking op".into()),
     }));
     match out {
@@ -287,6 +293,10 @@ fn do_blocking(r: &ActorRef<BA>, op: &BOp) -> BRes {
             Ok(v) => BRes::Reply(v),
             Err(e) => BRes::Err(err_name(&e)),
         },
+        BOp::Unpark => {
+            std::thread::current().unpark();
+            BRes::Ok
+        }
         _ => BRes::Err("not a blocking op".into()),
     }));
     match out {
@@ -1149,6 +1159,18 @@ pub fn scenarios(thorough: bool) -> Vec<BScenario> {
         callers: vec![
             BCaller { erased: false, ctx: Ctx::Thread, ops: vec![t(70, None, Some(500)), a(71, None, Some(500))] },
             BCaller { erased: false, ctx: Ctx::SpawnBlocking, ops: vec![a(72, None, None), t(73, None, None)] },
+        ],
+    });
+    // S23: a caller thread that carries a stale unpark token when it makes its bounded calls
+    v.push(BScenario {
+        name: "b23-stale-unpark-token".into(),
+        cap: 1,
+        gates: 1,
+        pool: None,
+        callers: vec![
+            BCaller { erased: false, ctx: Ctx::Thread, ops: vec![t(1, Some(0), None), t(2, None, None)] },
+            BCaller { erased: false, ctx: Ctx::Thread, ops: vec![BOp::Unpark, t(3, None, Some(200)), a(4, None, Some(200))] },
+            BCaller { erased: false, ctx: Ctx::Async, ops: vec![BOp::Wait(1000), BOp::OpenGate(0)] },
         ],
     });
     // S6: unusual timeout values
